@@ -194,7 +194,7 @@ theorem parseAny_rel (d : Dialect) (bs : Bytes) : Rel (parseAny d false bs) (par
 theorem fieldShell_rel (d : Dialect) (t : ATy) (p : FP) (bs : Bytes) (k1 k2 : TL → Nat → Bytes → Bytes → Except Err AVal)
     (hk : ∀ tl utag inner consumed, Rel (k1 tl utag inner consumed) (k2 tl utag inner consumed)) :
     Rel (fieldShell d .strict t p bs k1) (fieldShell d .lax t p bs k2) := by
-  unfold fieldShell
+  unfold fieldShell absentResult
   simp only [isCanon_strict, isCanon_lax, isLax_strict, isLax_lax, Bool.false_and, Bool.false_eq_true, if_false, forMode_strict, forMode_lax]
   split
   · exact Rel.refl _
